@@ -5,4 +5,5 @@ pub fn exec(it: &mut Interp, toks: &[&str], out: &mut Vec<String>) -> bool {
     crate::ext_c13::exec(it, toks, out) || crate::ext_c09::exec(it, toks, out)
         || crate::ext_c11::exec(it, toks, out)
         || crate::ext_c04::exec(it, toks, out)
+        || crate::ext_bin::exec(it, toks, out)
 }
